@@ -1,5 +1,7 @@
 import CogentModel.Proofs.SeqConv
 import CogentModel.Proofs.SeqCoords
+import CogentModel.Proofs.SeqCoordsIndex
+import CogentModel.Proofs.C01GenEq
 /-! # C01 — string-level property theorems, part 2
 
 Chains that also convert DNA <-> RNA, iteration / length corollaries, `parent_coordinates()` through
@@ -99,6 +101,37 @@ example : (SeqCoords.runOps (SeqCoords.ofString "ACGGTAAC".toList true 7 (some "
     = some (.ok (some "chr1", 7 + 1, 7 + 8, -1), "GTCG".toList) ∧
     SeqCoords.readSegment dnaC true "ACGGTAAC".toList 1 8 (-1) 2 = "GTCG".toList := by decide
 
+/-- **`parent_coordinates()` of `seq[i]` after any chain** of slices / indexing / rc from
+`make_seq(t, name=sid, annotation_offset=o)`, for EVERY python int `i`: when `str(seq)` has an `i`-th character `ch`
+(negative `i` from the end), `seq[i]` succeeds, displays `[ch]`, and reports `(sid, o + x, o + x + 1, strand of seq)`
+with `annotation_offset = o + x`, where `x` is a valid position of the ORIGINAL parent at which it holds `ch`
+(complemented iff `seq` is a reversed nucleic acid); otherwise `seq[i]` raises `IndexError` and nothing else. -/
+theorem parent_coordinates_index (comp : Char → Char) (hcomp : ∀ x, comp (comp x) = x)
+    (t : List Char) (nucleic : Bool) (o : Int) (sid : Option String) (ops : List SeqWrap.SOp)
+    (s' : SeqCoords.ASeq) (i : Int) (hops : ∀ op ∈ ops, SeqWrap.SOp.ok nucleic op)
+    (hs : SeqCoords.runOps (SeqCoords.ofString t nucleic o sid) ops = .ok s') :
+    (∀ ch, PySlice.index (SeqWrap.str comp s'.q) i = some ch →
+      ∃ s'' x, SeqCoords.step1 s' (.index i) = .ok s'' ∧ SeqWrap.str comp s''.q = [ch] ∧
+        SeqCoords.parentCoordinates s'' = .ok (sid, o + x, o + x + 1, if s'.q.v.step < 0 then -1 else 1) ∧
+        SeqCoords.annotationOffset s'' = .ok (o + x) ∧ 0 ≤ x ∧ x < t.length ∧
+        ch = (if s'.q.v.step < 0 ∧ nucleic then comp (t[x.toNat]!) else t[x.toNat]!)) ∧
+    (PySlice.index (SeqWrap.str comp s'.q) i = none →
+      SeqCoords.step1 s' (.index i) = .error .indexError) :=
+  SeqCoords.parent_coordinates_index' comp hcomp t nucleic o sid ops s' i hops hs
+
+-- offset 7, "ACGGTCATTG"[1:9][::3] = "CTT" (parent positions 1, 4, 7); [-1] -> `T` at 7 -> coordinates (14, 15, +)
+example : (SeqCoords.runOps (SeqCoords.ofString "ACGGTCATTG".toList true 7 (some "chr1"))
+      [.slice (some 1) (some 9) none, .slice none none (some 3), .index (-1)]).toOption.map
+      (fun s => (SeqCoords.parentCoordinates s, SeqWrap.str dnaC s.q))
+    = some (.ok (some "chr1", 7 + 7, 7 + 7 + 1, 1), "T".toList) := by decide
+-- reversed strided: rc then [::3] = "CTCT" (parent positions 9, 6, 3, 0 complemented); [1] -> position 6, strand -1
+example : (SeqCoords.runOps (SeqCoords.ofString "ACGGTCATTG".toList true 7 (some "chr1"))
+      [.rc, .slice none none (some 3), .index 1]).toOption.map
+      (fun s => (SeqCoords.parentCoordinates s, SeqWrap.str dnaC s.q))
+    = some (.ok (some "chr1", 7 + 6, 7 + 6 + 1, -1), "T".toList) ∧
+    (SeqCoords.runOps (SeqCoords.ofString "ACGGTCATTG".toList true 7 (some "chr1"))
+      [.rc, .slice none none (some 3), .index 4]).toOption = none := by decide
+
 /-- **A `SeqDataView` (sequence held by a new-style collection) with offset 0 reads the same string
 as a `SeqView` with the same start/stop/step**, so every string-level theorem transfers. -/
 theorem sdv_str_value_eq (data : List Char) (v : View) (h : Inv v) (hl : v.seqLen = data.length)
@@ -119,5 +152,124 @@ theorem sdv_str_value_offset_counter :
   SeqCoords.sdv_offset_counter
 
 example : Inv { start := 0, stop := 10, step := 1, offset := 3, seqLen := 10 } := by decide
+
+/-! ## translated Sequence-level getters
+
+`Sequence.annotation_offset` and `Sequence.parent_coordinates` of BOTH sequence modules are translated from the current
+python source on every run (`translator/py2lean_view.py`, conventions A4/A5: functions of the wrapped view, the seqid
+string dropped).  They are the hand model's `SeqCoords.annotationOffset` / `SeqCoords.parentCoordinates` for all
+arguments, and the full-strength integer-index theorem holds for the translated `__getitem__` + getters. -/
+section translated_sequence_getters
+open CogentModel.Gen.C01View
+
+/-- the hand model's `parent_coordinates()` / `annotation_offset` are the translated ones of core/sequence.py
+(applied to the wrapped view; the seqid the view carries put back in front, convention A5) -/
+theorem gen_old_parentCoordinates (s : SeqCoords.ASeq) :
+    SeqCoords.parentCoordinates s = (GenOld.parentCoordinates s.q.v).map (fun r => (s.seqid, r.1, r.2.1, r.2.2)) ∧
+    SeqCoords.annotationOffset s = GenOld.annotationOffset s.q.v := by
+  unfold SeqCoords.parentCoordinates SeqCoords.annotationOffset GenOld.parentCoordinates GenOld.annotationOffset
+  rw [C01GenEq.Old.parentStart_eq, C01GenEq.Old.parentStop_eq]
+  refine ⟨?_, rfl⟩
+  cases parentStart s.q.v <;> cases parentStop s.q.v <;> rfl
+
+/-- **integer index + translated getters**: for every view satisfying the invariant and every python int `i`, if the
+displayed positions have an `i`-th element `x` then the translated `view[i]` succeeds and the translated
+`parent_coordinates()` / `annotation_offset` of the result are `(offset + x, offset + x + 1, strand of the view)` /
+`offset + x`; otherwise the translated `view[i]` raises `IndexError` -/
+theorem gen_old_getitem_int_coords (v : View) (h : Inv v) (i : Int) :
+    (∀ x, PySlice.index (elems v) i = some x →
+      ∃ w, GenOld.getitemInt v i = .ok w ∧ elems w = [x] ∧
+        GenOld.parentCoordinates w = .ok (v.offset + x, v.offset + x + 1, if v.step < 0 then -1 else 1) ∧
+        GenOld.annotationOffset w = .ok (v.offset + x)) ∧
+    (PySlice.index (elems v) i = none → GenOld.getitemInt v i = .error .indexError) := by
+  rw [C01GenEq.Old.getitemInt_eq]
+  obtain ⟨f1, f2⟩ := getitemInt_full v h i
+  refine ⟨fun x hx => ?_, f2⟩
+  obtain ⟨w, hg, _, hew, _, _, _, hst, hps, hpe, _, _⟩ := f1 x hx
+  refine ⟨w, hg, hew, ?_, ?_⟩
+  · unfold GenOld.parentCoordinates
+    rw [C01GenEq.Old.parentStart_eq, C01GenEq.Old.parentStop_eq, hps, hpe, hst]
+    by_cases hv : v.step < 0
+    · simp [hv]
+    · simp [hv]
+  · unfold GenOld.annotationOffset
+    rw [C01GenEq.Old.parentStart_eq, hps]
+
+example : GenOld.parentCoordinates { start := -7, stop := -8, step := -1, offset := 5, seqLen := 10 } = .ok (5 + 3, 5 + 3 + 1, -1) ∧
+    GenOld.annotationOffset { start := 6, stop := 7, step := 1, offset := 3, seqLen := 10 } = .ok (3 + 6) := by decide
+
+/-- the hand model's `parent_coordinates()` / `annotation_offset` are the translated ones of core/new_sequence.py
+(applied to the wrapped view; the seqid the view carries put back in front, convention A5) -/
+theorem gen_new_parentCoordinates (s : SeqCoords.ASeq) :
+    SeqCoords.parentCoordinates s = (GenNew.parentCoordinates s.q.v).map (fun r => (s.seqid, r.1, r.2.1, r.2.2)) ∧
+    SeqCoords.annotationOffset s = GenNew.annotationOffset s.q.v := by
+  unfold SeqCoords.parentCoordinates SeqCoords.annotationOffset GenNew.parentCoordinates GenNew.annotationOffset
+  rw [C01GenEq.New.parentStart_eq, C01GenEq.New.parentStop_eq]
+  refine ⟨?_, rfl⟩
+  cases parentStart s.q.v <;> cases parentStop s.q.v <;> rfl
+
+/-- **integer index + translated getters**: for every view satisfying the invariant and every python int `i`, if the
+displayed positions have an `i`-th element `x` then the translated `view[i]` succeeds and the translated
+`parent_coordinates()` / `annotation_offset` of the result are `(offset + x, offset + x + 1, strand of the view)` /
+`offset + x`; otherwise the translated `view[i]` raises `IndexError` -/
+theorem gen_new_getitem_int_coords (v : View) (h : Inv v) (i : Int) :
+    (∀ x, PySlice.index (elems v) i = some x →
+      ∃ w, GenNew.getitemInt v i = .ok w ∧ elems w = [x] ∧
+        GenNew.parentCoordinates w = .ok (v.offset + x, v.offset + x + 1, if v.step < 0 then -1 else 1) ∧
+        GenNew.annotationOffset w = .ok (v.offset + x)) ∧
+    (PySlice.index (elems v) i = none → GenNew.getitemInt v i = .error .indexError) := by
+  rw [C01GenEq.New.getitemInt_eq]
+  obtain ⟨f1, f2⟩ := getitemInt_full v h i
+  refine ⟨fun x hx => ?_, f2⟩
+  obtain ⟨w, hg, _, hew, _, _, _, hst, hps, hpe, _, _⟩ := f1 x hx
+  refine ⟨w, hg, hew, ?_, ?_⟩
+  · unfold GenNew.parentCoordinates
+    rw [C01GenEq.New.parentStart_eq, C01GenEq.New.parentStop_eq, hps, hpe, hst]
+    by_cases hv : v.step < 0
+    · simp [hv]
+    · simp [hv]
+  · unfold GenNew.annotationOffset
+    rw [C01GenEq.New.parentStart_eq, hps]
+
+example : GenNew.parentCoordinates { start := -7, stop := -8, step := -1, offset := 5, seqLen := 10 } = .ok (5 + 3, 5 + 3 + 1, -1) ∧
+    GenNew.annotationOffset { start := 6, stop := 7, step := 1, offset := 3, seqLen := 10 } = .ok (3 + 6) := by decide
+
+/-- the hand model's `parent_coordinates()` / `annotation_offset` are the translated ones of core/new_sequence.py `Sequence` over a new_alignment.py `SeqDataView`
+(applied to the wrapped view; the seqid the view carries put back in front, convention A5) -/
+theorem gen_data_parentCoordinates (s : SeqCoords.ASeq) :
+    SeqCoords.parentCoordinates s = (GenData.parentCoordinates s.q.v).map (fun r => (s.seqid, r.1, r.2.1, r.2.2)) ∧
+    SeqCoords.annotationOffset s = GenData.annotationOffset s.q.v := by
+  unfold SeqCoords.parentCoordinates SeqCoords.annotationOffset GenData.parentCoordinates GenData.annotationOffset
+  rw [C01GenEq.Data.parentStart_eq, C01GenEq.Data.parentStop_eq]
+  refine ⟨?_, rfl⟩
+  cases parentStart s.q.v <;> cases parentStop s.q.v <;> rfl
+
+/-- **integer index + translated getters**: for every view satisfying the invariant and every python int `i`, if the
+displayed positions have an `i`-th element `x` then the translated `view[i]` succeeds and the translated
+`parent_coordinates()` / `annotation_offset` of the result are `(offset + x, offset + x + 1, strand of the view)` /
+`offset + x`; otherwise the translated `view[i]` raises `IndexError` -/
+theorem gen_data_getitem_int_coords (v : View) (h : Inv v) (i : Int) :
+    (∀ x, PySlice.index (elems v) i = some x →
+      ∃ w, GenData.getitemInt v i = .ok w ∧ elems w = [x] ∧
+        GenData.parentCoordinates w = .ok (v.offset + x, v.offset + x + 1, if v.step < 0 then -1 else 1) ∧
+        GenData.annotationOffset w = .ok (v.offset + x)) ∧
+    (PySlice.index (elems v) i = none → GenData.getitemInt v i = .error .indexError) := by
+  rw [C01GenEq.Data.getitemInt_eq]
+  obtain ⟨f1, f2⟩ := getitemInt_full v h i
+  refine ⟨fun x hx => ?_, f2⟩
+  obtain ⟨w, hg, _, hew, _, _, _, hst, hps, hpe, _, _⟩ := f1 x hx
+  refine ⟨w, hg, hew, ?_, ?_⟩
+  · unfold GenData.parentCoordinates
+    rw [C01GenEq.Data.parentStart_eq, C01GenEq.Data.parentStop_eq, hps, hpe, hst]
+    by_cases hv : v.step < 0
+    · simp [hv]
+    · simp [hv]
+  · unfold GenData.annotationOffset
+    rw [C01GenEq.Data.parentStart_eq, hps]
+
+example : GenData.parentCoordinates { start := -7, stop := -8, step := -1, offset := 5, seqLen := 10 } = .ok (5 + 3, 5 + 3 + 1, -1) ∧
+    GenData.annotationOffset { start := 6, stop := 7, step := 1, offset := 3, seqLen := 10 } = .ok (3 + 6) := by decide
+
+end translated_sequence_getters
 
 end CogentModel.C01
